@@ -22,7 +22,7 @@ def rle(dec, bw, layset, pad=0, timeout=300):
     zero = layset in (1, 3)
     nm = 'rle-dec/%s/bw%d/%s%s' % (DECN[dec], bw, 'zero-length-rle-runs' if zero else 'layouts', '/padded-headers' if pad else '')
     return E2(nm, H, DICT if dec >= 4 else RLE, ['-DVMODE=1', '-DVDEC=%d' % dec, '-DVBW=%d' % bw, '-DVLAYSET=%d' % layset, '-DVPADHDR=%d' % pad],
-              ref=['ref_rle.c'], timeout=timeout, leaks=True, expect_paths_min=(1 if zero else NLAY[layset]),
+              ref=['ref_rle.c'], timeout=timeout, leaks=True, expect_paths_min=NLAY[layset],
               bounds='reference hybrid stream, layout chosen among the %d concrete layouts of set %d (%s)%s, %s values of %d bits all symbolic%s' % (
                   NLAY[layset], layset, LAYDESC[layset], ', every run header as a non-minimal varint' if pad else '', '0..24' if layset < 2 else '3..4', bw,
                   '; dictionary of 3 symbolic entries, indices 0..2' if dec >= 4 else ''))
